@@ -24,7 +24,7 @@ def _counters(lines, verdicts):
          "single_page_cases": 0, "single_page_with_caller_state_and_retry": 0,
          "coordinator_checked_multi_node_multi_page": 0, "forced_early_timeout_cases": 0,
          "timeout_with_early_drop": 0, "early_timeout_drop_branch": 0, "single_page_nonrows_or_ignored": 0,
-         "not_run_trace_race": 0}
+         "not_run_trace_race": 0, "stale_response_cases_run": 0}
     for ln, v in zip(lines, verdicts):
         parts = ln.split("|")
         case = parts[0].split()
@@ -34,6 +34,10 @@ def _counters(lines, verdicts):
         if obs0 and obs0[0] in ("error", "replay-error"):
             # a case that did not run exercises nothing: it counts only here
             c["not_run"] += 1
+            continue
+        if v and v.startswith("ok not-run trace-race"):
+            c["not_run"] += 1
+            c["not_run_trace_race"] += 1
             continue
         script = case[6]
         pages = script.split(";")
@@ -60,6 +64,9 @@ def _counters(lines, verdicts):
             c["drop_cases"] += 1
         if case[1] == "c":
             c["connection_pager_cases"] += 1
+        if case[0] == "X":
+            # ran = the schedule held (the runner reports `error stale-schedule..` otherwise)
+            c["stale_response_cases_run"] += 1
         if case[0] in ("T", "E"):
             c["timeout_cases"] += 1
         if case[0] == "E":
@@ -82,10 +89,6 @@ def _counters(lines, verdicts):
         if v and v.startswith("ok early-timeout drop"):
             # the verdict names the acceptor branch: accept_drop_timeout (C07_drop_timeout_sound)
             c["early_timeout_drop_branch"] += 1
-        if v and v.startswith("ok not-run trace-race"):
-            c["not_run"] += 1
-            c["not_run_trace_race"] += 1
-            continue
         if any("U" in f.split(",") for f in faults[1:]):
             c["unprepared_on_later_page"] += 1
         obs = parts[1].split() if len(parts) > 1 else []
@@ -115,7 +118,7 @@ _FLOORS = {"drop_cases": 40, "connection_pager_cases": 40, "cases_with_nonretrie
            "cases_connection_reset": 2, "requests_seen": 1500, "single_page_cases": 25,
            "single_page_with_caller_state_and_retry": 5, "coordinator_checked_multi_node_multi_page": 100,
            "early_timeout_accepted": 2, "early_timeout_drop_branch": 1,
-           "single_page_nonrows_or_ignored": 3}
+           "single_page_nonrows_or_ignored": 3, "stale_response_cases_run": 2}
 
 
 def _post(lines, verdicts):
@@ -129,7 +132,7 @@ def _post(lines, verdicts):
     scale = max(1, len(lines) // 1500)
     # families of fixed size do not grow with the random part of a thorough run
     fixed_big = {"timeout_cases": 16, "early_timeout_accepted": 6, "early_timeout_drop_branch": 2,
-                 "single_page_nonrows_or_ignored": 20, "single_page_cases": 150, "single_page_with_caller_state_and_retry": 30,
+                 "single_page_nonrows_or_ignored": 20, "stale_response_cases_run": 4, "single_page_cases": 150, "single_page_with_caller_state_and_retry": 30,
                  "slow_consumer_error_on_page_ge2_seen_by_caller": 60}
     for k, floor in _FLOORS.items():
         need = floor * scale if k not in fixed_big else (floor if scale == 1 else fixed_big[k])
@@ -150,13 +153,13 @@ SPEC = {
     "coq_targets": ["Props/C07.vo", "Extract/ExC07.vo"],
     "bin": "c07",
     "sizes": {"quick": 400, "thorough": 20000},
-    "min_cases": {"quick": 505, "thorough": 19500},
+    "min_cases": {"quick": 510, "thorough": 19500},
     "post": _post,
     "search_n": 4000,
     "runner_timeout": 2400,
     "rule": ("e2e: the real pagers against mocknode -- Session::query_iter (api q), Session::execute_iter (api e; E = cached "
              "result metadata) and, through the hook scylla::client::verif_pager, Connection::execute_iter on a bare "
-             "connection (mode c). quick = 518 cases: 39 systematic (all page-size sequences over {0,1,2} of length <= 3) + 400 "
+             "connection (mode c). quick = 523 cases: 39 systematic (all page-size sequences over {0,1,2} of length <= 3) + 400 "
              "seeded random scripts (0..40 distinct rows, 1..9 pages, empty pages anywhere, random paging states, per-page "
              "faults: ERROR frames whose retry decision same/next/dont/ignore is taken by a scripted retry policy or by "
              "DefaultRetryPolicy idempotent / non-idempotent, UNPREPARED + re-prepare, delayed replies, connection reset "
@@ -164,8 +167,8 @@ SPEC = {
              "read F, slow S, every Pending poll cancelled J, early drop D) + 16 'slow consumer x error on a page >= 2' (S) + 16 "
              "'prepared statement evicted on a later page' (U) + 30 single-page requests resumed with a caller-supplied paging "
              "state (P: query_single_page / execute_single_page) + 8 client-timeout cases (T; 2 of them with an early drop, one per mode) + 9 forced early-timeout cases (E: "
-             "400 ms client timeout, a reply before the scripted T delayed by 2 s; 3 of them Session pagers whose caller drops after the error: only accept_drop_timeout explains them). thorough = 20 433 cases (39 + 20 000 random "
-             "with 0..400 rows / 1..24 pages + 80 + 80 + 200 + 16 + 18). Observed: the items the caller saw and, from the mock's "
+             "400 ms client timeout, a reply before the scripted T delayed by 2 s; 3 of them Session pagers whose caller drops after the error: only accept_drop_timeout explains them) + 5 stale-response cases (X: the pager runs on the only connection of a one-node session 2.2 s after another pager abandoned a page request (300 ms client timeout) whose response the mock releases after 3 s, while this pager's first page, delayed 1.5 s, is in flight; seeded change C07-3). thorough = 20 441 cases (39 + 20 000 random "
+             "with 0..400 rows / 1..24 pages + 80 + 80 + 200 + 8 + 16 + 18). Observed: the items the caller saw and, from the mock's "
              "trace, (Rows pages served before, paging_state, mock node) of every QUERY/EXECUTE of the statement. "
              "non-trivial = at least two pages or one fault; distinct = distinct case lines"),
     "nontrivial": _nontrivial,
@@ -197,7 +200,7 @@ SPEC = {
         "or `ok not-run` (set-up failures and T/E observations whose last queued frame did not reach the mock's trace; counted, capped at "
         "max(2, lines/200); the fixed-size families have floors T+E 8 of 17, early-timeout 2 of 9, drop-timeout branch 1 of 3, P 25 of 30); "
         "inside class O1 the property predicate is evaluated",
-        "wall-clock constants: T cases 4 s client timeout (earlier strike tolerated), E cases 400 ms vs a 2 s delayed reply, "
+        "wall-clock constants: T cases 4 s client timeout (earlier strike tolerated), E cases 400 ms vs a 2 s delayed reply, X cases 300 ms / 2.2 s / 3 s / 1.5 s (a missed schedule is not-run), "
         "watchdog 300 s per case (hang -> viol when a stream is expected), wait_pools 10 s after reset cases, settle loop "
         "<= 400 ms after drop cases, 300 ms of silence (<= 3 s) after timeout cases, hook connect_timeout 5 s (-> not-run)",
         "Connection::execute_iter is reached through the add-only hook scylla::client::verif_pager "
